@@ -41,7 +41,7 @@ func (q c09Q) String() string {
 	return fmt.Sprintf("%s %s class=%d", q.Name, dnsmessage.TypeToString[q.Type], q.Class)
 }
 
-var c09Types = []uint16{dnsmessage.TypeA, dnsmessage.TypeAAAA, dnsmessage.TypeTXT}
+var c09Types = []uint16{dnsmessage.TypeA, dnsmessage.TypeAAAA, dnsmessage.TypeTXT, dnsmessage.TypeCAA} // CAA = 257: equal to A modulo 256
 
 // Small overlapping name pool (shared suffixes, a name that is a suffix/prefix
 // of another) so that mix-ups between neighbours are possible and visible.
